@@ -664,10 +664,15 @@ _keepalive = []
 
 
 def set_shared(objs):
+    """Register the shared objects of a run.  Every registered object is
+    kept alive until the next call: a freed object's id could otherwise be
+    reused by an unrelated temporary, which would then count as shared
+    (memory-layout dependent, i.e. non-deterministic)."""
     _shared_ids.clear()
     del _keepalive[:]
     for label, o in objs:
         _shared_ids[id(o)] = label
+        _keepalive.append(o)
 
 
 def wrap_attr_class(cls):
